@@ -52,12 +52,7 @@ def leg_T(ctx, sessions, only=None):
     tpath = os.path.join(ctx.work, "sam_trace.ndjson")
     ctx.vh(["sam-drive", tpath, sessions] + ([only] if only is not None else []))
 
-    def classify(why, e, text, rp):
-        if why.startswith("NOTE"):
-            ctx.note("drift (not a violation): %s" % text)
-        else:
-            ctx.violation(text, rp)
-    codec.judge_trace(ctx, "Trace_Sam", tpath, {"driver": "sam-drive", "sessions": sessions}, classify=classify,
+    codec.judge_trace(ctx, "Trace_Sam", tpath, {"driver": "sam-drive", "sessions": sessions},
                       describe=lambda e: ("write %s -> %s" % (json.dumps(e["rec"])[:300], bytes(e["bw"])[:200]) if e["op"] == "write" else
                                           "read/%s of %s: %d items (%s), wanted %d" % (e["mode"], bytes(e["bytes"])[:300], len(e["items"]),
                                                                                      "".join(i["k"][0] for i in e["items"][:40]), len(e["want"]))))
